@@ -237,6 +237,9 @@ def _mk_call(sim, stacks, ev, res):
         elif op == 'ca_stop':
             ca = st.cas[ev['ca']]
             st.call(('ca_stop', sim.now, ev['ca']), lambda: ca.stop())
+        elif op == 'remove_ca':
+            # ecu.remove_ca(preferred address): the CA is taken out of the stack (its listeners stay registered); oracle only
+            st.ecu.remove_ca(ev['addr'])
         elif op == 'probe':
             sim.trace.append((sim.now, -1, 'probe', tuple(0 if x.tables_empty() else 1 for x in stacks), tuple(x.job_state() for x in stacks),
                               tuple(0 if x.tables_empty(sessions_only=True) else 1 for x in stacks)))
